@@ -456,6 +456,11 @@ func hasRecoverBoundary(fn *ssa.Function) (bool, string) {
 			if !assignsErrorOnRecover(callee) {
 				return false, "the deferred function recovers but does not assign an error on the recovered branch"
 			}
+			// ... and what it assigns must be this function's error result: the pointer argument (or captured variable)
+			// is the cell that the recover block returns in the error position
+			if !deferTargetsErrorResult(fn, x) {
+				return false, "the deferred function assigns an error, but not to the error result this function returns after recovery"
+			}
 			return true, "defer " + callee.Name()
 		case *ssa.Call:
 			// calls before the defer that cannot panic are fine; anything else means the boundary does not cover it
@@ -569,4 +574,46 @@ func isStdlib(path string) bool {
 		first = path[:i]
 	}
 	return !strings.Contains(first, ".")
+}
+
+// deferTargetsErrorResult: some pointer-to-error argument (or closure binding) of the deferred call is a local cell
+// whose value the function's recover block returns as its error result.
+func deferTargetsErrorResult(fn *ssa.Function, d *ssa.Defer) bool {
+	if fn.Recover == nil {
+		return false
+	}
+	var ret *ssa.Return
+	for _, ins := range fn.Recover.Instrs {
+		if r, ok := ins.(*ssa.Return); ok {
+			ret = r
+		}
+	}
+	if ret == nil {
+		return false
+	}
+	errIdx := resultHasError(fn.Signature)
+	if errIdx < 0 || errIdx >= len(ret.Results) {
+		return false
+	}
+	ld, ok := ret.Results[errIdx].(*ssa.UnOp)
+	if !ok {
+		return false
+	}
+	cell, ok := ld.X.(*ssa.Alloc)
+	if !ok {
+		return false
+	}
+	for _, a := range d.Call.Args {
+		if a == ssa.Value(cell) {
+			return true
+		}
+	}
+	if mc, ok := d.Call.Value.(*ssa.MakeClosure); ok {
+		for _, b := range mc.Bindings {
+			if b == ssa.Value(cell) {
+				return true
+			}
+		}
+	}
+	return false
 }
